@@ -104,8 +104,8 @@ Proof. exact c01_concrete. Qed.
 Print Assumptions C01_concrete_partial.
 
 (** The unrestricted statement is false of the faithful model (recorded
-    finding D14): the tree { /bk, /f = "hi", /l -> /f } in the documented
-    layering (base hides /bk, backup is PrefixFS(/bk)); Create("/l") writes
+    finding D14): the tree { /bk, /f = "hi", /l -> /f } in the layering of
+    New/NewWithFS (base hides /bk, backup is PrefixFS(/bk)); Create("/l") writes
     through the link into the untracked /f; Rollback returns nil and /f is
     not restored. *)
 Open Scope N_scope.
@@ -143,7 +143,7 @@ Proof. exact c01_documented. Qed.
 Print Assumptions C01_documented_partial.
 
 (** Regression for the repaired finding D23 (/repo commit 4f3c995).  Tree
-    { /bk, /f = "orig", /other = "precious" } in the documented layering
+    { /bk, /f = "orig", /other = "precious" } in the layering of New/NewWithFS
     (base hides /bk, backup is PrefixFS(/bk)).  Remove(/f) backs /f up;
     Symlink("other", /f) puts a link to /other in its place.  Before the
     repair Rollback restored /f *through* that link: [restoreFile]'s
